@@ -156,6 +156,38 @@ namespace rkcommon {
       buf.write((const byte_t *)rh.data(), sizeof(T) * sz);
       return buf;
     }
+
+    // The concrete array types are an exact match for the generic raw-data
+    // operator above (which would write the bytes of the wrapper object
+    // itself - vtable pointer and all - instead of its elements), so each of
+    // them has to forward to the AbstractArray<T> operator explicitly
+    template <typename T>
+    inline WriteStream &operator<<(WriteStream &buf,
+                                   const utility::ArrayView<T> &rh)
+    {
+      return buf << static_cast<const utility::AbstractArray<T> &>(rh);
+    }
+
+    template <typename T>
+    inline WriteStream &operator<<(WriteStream &buf,
+                                   const utility::OwnedArray<T> &rh)
+    {
+      return buf << static_cast<const utility::AbstractArray<T> &>(rh);
+    }
+
+    template <typename T>
+    inline WriteStream &operator<<(WriteStream &buf,
+                                   const utility::FixedArray<T> &rh)
+    {
+      return buf << static_cast<const utility::AbstractArray<T> &>(rh);
+    }
+
+    template <typename T>
+    inline WriteStream &operator<<(WriteStream &buf,
+                                   const utility::FixedArrayView<T> &rh)
+    {
+      return buf << static_cast<const utility::AbstractArray<T> &>(rh);
+    }
     /*! @} */
 
     /*! @{ serialize operations for strings */
